@@ -91,6 +91,8 @@ static Register p8("c08.pairs.ov1.n2k2", "C08", "all ordered pairs of TA(2,{a:0,
 static Register p9("c08.pairs.ov.trim.n2k3", "C08", "all ordered pairs of TRIMMED automata of TA(2,{a:0,b:0,a:2},<=3 per side): one symbol name with two arities", [](Env& e) { pairs(e, "c08.pairs.ov.trim.n2k3", 2, dom::SigmaOv(), 3, 6, true); });
 static Register p6("c08.pairs.trim.n2s2k3", "C08", "all ordered pairs of TRIMMED automata of TA(2,{a:0,b:0,g:2},<=3)", [](Env& e) { pairs(e, "c08.pairs.trim.n2s2k3", 2, dom::Sigma2(), 3, 6, true); });
 static Register p4("c08.pairs.trim.n3s3pk3", "C08", "all ordered pairs of TRIMMED automata of TA(3,{a:0,f:1,g:2},<=3): Union, UnionDisjointStates, Intersection in both BDD encodings", [](Env& e) { pairs(e, "c08.pairs.trim.n3s3pk3", 3, dom::Sigma3p(), 3, 6, true); });
+static Register p10("c08.pairs.trim.n3abfk3", "C08", "all ordered pairs of TRIMMED automata of TA(3,{a:0,b:0,f:1},<=3 per side) (word-like)", [](Env& e) { pairs(e, "c08.pairs.trim.n3abfk3", 3, dom::SigmaABF(), 3, 6, true); });
+static Register s5("c08.single.n4abfk4", "C08", "every automaton of TA(4,{a:0,b:0,f:1},<=4)", [](Env& e) { single(e, "c08.single.n4abfk4", 4, dom::SigmaABF(), 4); });
 static Register p5("c08.pairs.trim.n3s3pk4", "C08", "all ordered pairs of TRIMMED automata of TA(3,{a:0,f:1,g:2},<=4) with <=7 rules in total", [](Env& e) { pairs(e, "c08.pairs.trim.n3s3pk4", 3, dom::Sigma3p(), 4, 7, true); });
 }  // namespace c08
 
